@@ -235,6 +235,8 @@ class Processor(ABC):
                     while source.payload is None and isinstance(source, MarkerRelation):
                         source = source.target
                     payload = source.payload
+                if payload is not None:
+                    pass
                 elif original.is_join_identity:
                     payload = target.engine.get_join_identity_payload()
                 elif original.max_rows == 0:
